@@ -45,7 +45,7 @@ class Run:
         self.desc = desc
         self.driver = driver
         env.reset_process_state()
-        clock.tick_cap = 200000
+        clock.tick_cap = 30000
         clock.now = desc.get('epoch', EPOCH)
         self.t0 = clock.now
         self.log = []
